@@ -444,15 +444,78 @@ func c20SplitSeps(v sxVal) map[string]bool {
 	return out
 }
 
+// c20LastSplit: the reference term was cut off at a separator found by a
+// last-occurrence (or unbounded split) search; returns the search call and the
+// haystack, so that the caller can demand a validation of the discarded prefix.
+func c20LastSplit(v sxVal, seps ...string) (call *sxCallRec) {
+	want := map[string]bool{}
+	for _, s := range seps {
+		want[s] = true
+	}
+	sxWalk(v, func(x sxVal) bool {
+		cl, ok := x.(sxCall)
+		if !ok || len(cl.rec.Args) < 2 || call != nil {
+			return call == nil
+		}
+		first := true
+		switch cl.rec.Name {
+		case "strings.LastIndex", "strings.LastIndexByte", "strings.LastIndexAny", "strings.LastIndexFunc", "strings.Split", "strings.SplitAfter", "strings.Fields":
+			first = false
+		case "strings.SplitN", "strings.SplitAfterN":
+			first = len(cl.rec.Args) == 3 && cl.rec.Args[2].key() == "const:2"
+		}
+		if !first && want[cl.rec.Args[1].key()] {
+			call = cl.rec
+		}
+		return true
+	})
+	return
+}
+
 // c20Paths: unexported helpers are executed in place; exported API (the
 // validators, ParseReference, Digest) stays summarised.
 func c20Paths(fn *ssa.Function) *sxResult {
 	return sxPathsInline(fn, "c20", func(g *ssa.Function) bool { return !token.IsExported(g.Name()) })
 }
 
+// c20FirstSep: what precedes the '@' of a returned digest reference is
+// discarded (the tag before a digest).  It is never validated, so it must be
+// delimited by the FIRST '@' — then it cannot hide another '@…' (or, in the
+// fallback of Repository.ParseReference, a whole foreign "registry/repo@x"):
+// a last-occurrence search is accepted only if the discarded prefix itself
+// went through the tag validator.
+func c20FirstSep(agg *c19Agg, p *sxPath, F *ssa.Function, fname string, R, ref sxVal, fld func(sxVal, string) sxVal) {
+	key := fname + "|dropped-part-delimited-by-first-@"
+	last := c20LastSplit(ref, `const:"@"`, "const:64")
+	if last == nil {
+		agg.ok(key, F, p.RetInstr, "the digest is what follows the first '@' (first-occurrence search): the unvalidated part dropped before it contains no '@'")
+		return
+	}
+	// exception: the discarded prefix was validated as a tag
+	for _, r := range p.Calls {
+		if r.Name == "(~/registry.Reference).ValidateReferenceAsTag" && p.ErrNil(-1, r) {
+			if recv := c20Recv(r); recv != nil {
+				pre := fld(recv, "Reference")
+				found := false
+				sxWalk(pre, func(x sxVal) bool {
+					if cl, ok := x.(sxCall); ok && cl.rec == last {
+						found = true
+					}
+					return true
+				})
+				if found && !sxSame(pre, ref) {
+					agg.ok(key, F, p.RetInstr, "the part dropped before the last '@' is validated as a tag")
+					return
+				}
+			}
+		}
+	}
+	agg.fail(key, F, p.RetInstr, p, "the digest is located with "+last.Name+" (last occurrence / unbounded split): everything before the last '@' — e.g. \"evil.example/other@x\" or \"v1@\" — is dropped without validation and the reference is accepted")
+}
+
 func c20R3(c *Ctx) {
 	const R3 = "C20.R3.parse-validates"
-	c.Expect(R3, 12)
+	c.Expect(R3, 14)
 	agg := newC19Agg(c, R3)
 	refT := c.P.Named("registry", "Reference")
 	PR := c.P.Fn("registry", "ParseReference")
@@ -501,6 +564,7 @@ func c20R3(c *Ctx) {
 			if c20SplitSeps(fld(R, "Repository"))[":"] {
 				formB = true
 			}
+			c20FirstSep(agg, p, PR, pn, R, ref, fld)
 		case seps[":"]:
 			if c20Validated(p, R, "ValidateReferenceAsTag") {
 				agg.ok(key, PR, p.RetInstr, "what follows ':' is validated as a tag")
@@ -569,6 +633,7 @@ func c20R3(c *Ctx) {
 			agg.fail(key, RP, p.RetInstr, p, "the fallback branch returns registry/repository other than the base's")
 		case seps["@"] && c20Validated(p, R, "ValidateReferenceAsDigest"):
 			agg.ok(key, RP, p.RetInstr, "tag@digest: what follows '@' is validated as a digest")
+			c20FirstSep(agg, p, RP, rn, R, ref, fld)
 		case seps["@"]:
 			agg.fail(key, RP, p.RetInstr, p, "the part after '@' is returned without a successful ValidateReferenceAsDigest()")
 		case c20Validated(p, R, "ValidateReference", "ValidateReferenceAsDigest", "ValidateReferenceAsTag", "Validate"):
@@ -1383,6 +1448,10 @@ var c20Mutants = []Mutant{
 	{Name: "fq-reference-other-repository", File: "registry/remote/repository.go", Old: "\t} else if ref.Registry != r.Reference.Registry || ref.Repository != r.Reference.Repository {", New: "\t} else if ref.Registry != r.Reference.Registry {", Expect: "C20.R3"},
 	{Name: "empty-reference-accepted", File: "registry/remote/repository.go", Old: "\tif len(ref.Reference) == 0 {\n\t\treturn registry.Reference{}, errdef.ErrInvalidReference\n\t}\n\n\treturn ref, nil", New: "\treturn ref, nil", Expect: "C20.R3"},
 	{Name: "fallback-digest-validated-as-tag", File: "registry/remote/repository.go", Old: "\t\t\terr = ref.ValidateReferenceAsDigest()", New: "\t\t\terr = ref.ValidateReferenceAsTag()", Expect: "C20.R3"},
+	{Name: "fallback-digest-after-last-at", File: "registry/remote/repository.go",
+		Old: "\t\tif index := strings.IndexByte(reference, '@'); index != -1 {", New: "\t\tif index := strings.LastIndexByte(reference, '@'); index != -1 {", Expect: "C20.R3"},
+	{Name: "parse-digest-after-last-at", File: "registry/reference.go",
+		Old: "\tif index := strings.Index(path, \"@\"); index != -1 {", New: "\tif index := strings.LastIndex(path, \"@\"); index != -1 {", Expect: "C20.R3"},
 	{Name: "fallback-validation-error-dropped", File: "registry/remote/repository.go", Old: "\t\tif err != nil {\n\t\t\treturn registry.Reference{}, err\n\t\t}\n\t} else if ref.Registry", New: "\t} else if ref.Registry", Expect: "C20.R3"},
 	{Name: "registry-host-not-compared", File: "registry/reference.go", Old: "err != nil || uri.Host == \"\" || uri.Host != r.Registry {", New: "err != nil || uri.Host == \"\" {", Expect: "C20.R3"},
 	{Name: "string-digest-with-colon", File: "registry/reference.go", Old: "\t\treturn ref + \"@\" + d.String()", New: "\t\treturn ref + \":\" + d.String()", Expect: "C20.R3"},
